@@ -21,7 +21,8 @@ import vlib
 from vlib import cz, cnat, cbool, clist
 
 HEADER = ("From Coq Require Import List ZArith Bool.\nImport ListNotations.\n"
-          "From QV Require Import Model.C12 Model.C12_mc Model.C12_sto.\nOpen Scope Z_scope.\n")
+          "From QV Require Import Model.C12 Model.C12_mc Model.C12_sto Model.C12_nm.\n"
+          "Open Scope Z_scope.\n")
 
 
 # ===================================================================== K5
@@ -392,6 +393,277 @@ def attr_cells(ctx):
     return out
 
 
+# ===================================================================== K7
+def gen_traj_case(rng):
+    """MCSolver / NonMarkovianMCSolver._run_one_traj with a scripted
+    integrator, collapse record and martingale."""
+    import c12
+    bad = 0.15 if rng.random() < 0.1 else 0.0
+    n = rng.choice([0, 1, 2, 3, 5])
+    tlist = sorted(rng.sample(range(0, 30), n))
+    outs = [(t if rng.random() < 0.9 else t + 100, rng.randrange(0, 40), None) for t in tlist[1:]]
+    o = c12.gen_opts(rng)
+    return {"kind": "traj", "nm": rng.random() < 0.6, "dark": rng.random() < 0.3,
+            "floor_given": rng.random() < 0.5, "opts": o, "eops": c12._norm_eops(c12.gen_eops(rng, bad)),
+            "d0": rng.randrange(0, 20), "tlist": tlist, "outs": outs,
+            "cols": [rng.randrange(0, 30) for _ in range(rng.choice([0, 0, 1, 2, 4]))],
+            # the jump record the martingale still holds from what ran before
+            "prev": [rng.randrange(0, 30) for _ in range(rng.choice([0, 1, 3]))],
+            "malformed": bad > 0}
+
+
+def run_traj_real(case):
+    import c12
+    import qutip.solver.result as R
+    import sys
+    import qutip.solver.mcsolve  # noqa: F401 (the name is shadowed by the function)
+    MC = sys.modules["qutip.solver.mcsolve"]
+    from qutip.solver.mcsolve import MCSolver
+    from qutip.solver.nm_mcsolve import NonMarkovianMCSolver
+    from qutip.solver.integrator.integrator import Integrator
+    from qutip.solver.result import Result
+    outs, cols = case["outs"], case["cols"]
+
+    class FakeInteg(Integrator):
+        def __init__(self):
+            self.outs = list(outs)
+            self.collapses = list(case["prev"])
+            self.kw = None
+
+        def set_state(self, t, d, *a, **kw):
+            self.kw = kw
+            # MCIntegrator.set_state starts a new record; with no step to take
+            # the scripted record is complete at once
+            self.collapses = [] if self.outs else list(cols)
+
+        def integrate(self, t, copy=True):
+            if self.outs:
+                t2, d, n = self.outs.pop(0)
+            else:
+                t2, d, n = t, 0, None
+            if not self.outs:
+                # the record is complete once the last step was taken
+                self.collapses.extend(cols)
+            return t2, c12.Dat(d)
+
+    class FakeMart:
+        def __init__(self, integ):
+            self.integ = integ
+
+        def value(self, t):
+            return 1000 * len(self.integ.collapses) + int(t)
+
+    base = NonMarkovianMCSolver if case["nm"] else MCSolver
+    opt = c12.py_options(case["opts"])
+    opt["norm_tol"] = 0.001
+
+    class Fake(base):
+        options = opt
+        _options = opt
+        _trajectory_resultclass = Result
+
+        def __init__(self):
+            self._integrator = FakeInteg()
+            self._martingale = FakeMart(self._integrator)
+
+        def _restore_state(self, d, copy=True):
+            return c12.St(2 * d.tag)
+
+        def _get_generator(self, seed):
+            return None
+
+    saved, saved_z = R.expect, MC.qzero_like
+    R.expect = c12._fake_expect
+    MC.qzero_like = lambda s: c12.St(-s.tag - 1)
+    try:
+        fake = Fake()
+        kw = {}
+        if case["dark"]:
+            kw["jump_prob_floor"] = 1.0
+        elif case["floor_given"]:
+            kw["jump_prob_floor"] = 0.25
+        try:
+            seed, r, w = fake._run_one_traj(7, c12.Dat(case["d0"]), case["tlist"],
+                                            c12.make_eops(case["eops"]), **kw)
+        except TypeError:
+            return ("Raise", "TypeError")
+        except IndexError:
+            return ("Raise", "IndexError")
+        obs, extra = c12.observe_real("CResult", case["opts"], r)
+        weight = {0.0: 0, 1.0: 1, 0.75: 101}.get(float(w), "?")
+        trace = ("Some", [int(x) for x in r.trace]) if hasattr(r, "trace") else None
+        # flat, as Coq prints the nested pair
+        return ("Ok", tuple(obs) + ([int(c) for c in r.collapse], weight, trace))
+    finally:
+        R.expect, MC.qzero_like = saved, saved_z
+
+
+def traj_expr(case):
+    import c12
+    return "x_nm_run %s %s %s %s %s %s %s %s %s %s" % (
+        cbool(case["nm"]), cbool(case["dark"]), cbool(case["floor_given"]),
+        c12.c_opts(case["opts"]), c12.c_eops(case["eops"]), cz(case["d0"]),
+        clist(case["tlist"], cz), c12.c_pts(case["outs"]), clist(case["cols"], cz),
+        clist(case["prev"], cz))
+
+
+def traj_oracle(case, real):
+    """the property on the trajectory object: one time per requested time,
+    trace aligned with tlist, dark branch all zero states with no collapse."""
+    bad = []
+    if real[0] != "Ok":
+        return bad
+    obs, (collapse, weight, trace) = real[1][:7], real[1][7:]
+    times, edata, states = obs[0], obs[1], obs[2]
+    tl = case["tlist"]
+    if len(times) != len(tl):
+        bad.append(("traj-times", "trajectory does not have one time per requested time"))
+    if case["nm"]:
+        if trace is None or len(trace[1]) != len(tl):
+            bad.append(("trace", "trajectory trace is not one value per requested time"))
+        elif [v % 1000 for v in trace[1]] != list(tl):
+            bad.append(("trace", "trace[k] is not the martingale at tlist[k]"))
+        elif not case["dark"] and any(v // 1000 != len(collapse) for v in trace[1]):
+            bad.append(("trace", "trace was not computed from this trajectory's complete collapse record"))
+    elif trace is not None:
+        bad.append(("trace", "mcsolve trajectory has a trace attribute"))
+    if case["dark"]:
+        z = -(2 * case["d0"]) - 1
+        if collapse or weight != 0 or times != list(tl) or any(s != z for s in states):
+            bad.append(("dark-branch", "dark-state trajectory is not all zero states at tlist with weight 0"))
+    elif collapse != case["cols"]:
+        bad.append(("collapse", "trajectory collapse record is not the integrator's record"))
+    return bad
+
+
+# ===================================================================== K8
+def gen_ss_case(rng):
+    n = rng.choice([1, 2, 3, 5, 8])
+    ntraj = rng.choice([1, 2, 4])
+    return {"kind": "ss", "n": n, "ntraj": ntraj,
+            "states": [[rng.randrange(-8, 9) * ntraj for _ in range(n)] for _ in range(ntraj)],
+            "stored": rng.random() < 0.85, "keep": rng.random() < 0.5,
+            "N": rng.choice([0, 1, 2, 3, n, n + 1, n + 5, -1, -2, 2.7, rng.randrange(-3, 12)])}
+
+
+def run_ss_real(case):
+    import qutip
+    from qutip.solver.multitrajresult import MultiTrajResult
+    opt = {"store_states": case["stored"], "store_final_state": False,
+           "keep_runs_results": case["keep"]}
+    r = MultiTrajResult([], opt, solver="x", stats={})
+    times = [float(k) for k in range(case["n"])]
+    for i in range(case["ntraj"]):
+        tr = _Traj(times, [])
+        if case["stored"]:
+            tr.states = [qutip.Qobj([[float(v)]]) for v in case["states"][i]]
+            tr.final_state = tr.states[-1]
+        r.add((i, tr))
+    try:
+        v = r.steady_state(case["N"])
+    except ZeroDivisionError:
+        return "SSZeroDiv"
+    if v is None:
+        return "SSNone"
+    if not hasattr(v, "full"):            # sum of an empty slice is the int 0
+        return ("SSValue", complex(v))
+    return ("SSValue", complex(v.full()[0, 0]))
+
+
+def ss_expr(case):
+    if case["stored"]:
+        avg = [sum(case["states"][i][k] for i in range(case["ntraj"])) // case["ntraj"]
+               for k in range(case["n"])]
+        st = "(Some %s)" % clist(avg, cz)
+    else:
+        st = "None"
+    return "steady_state %d%%nat %s %s" % (case["n"], st, cz(int(case["N"])))
+
+
+def _empty_slice(case, n):
+    return n < 0 and -n >= case["n"]
+
+
+def compare_ss(case, real, model):
+    if model in ("SSNone", "SSZeroDiv"):
+        return [] if real == model else ["steady_state"]
+    _, sm, n = model
+    # Qobj.__truediv__(N) multiplies by 1 / N; the sum of an empty slice is the int 0
+    want = (np.float64(sm) * (1 / np.float64(n))) if not _empty_slice(case, n) else 0 / n
+    if not (isinstance(real, tuple) and real[1] == complex(want)):
+        return ["steady_state"]
+    return []
+
+
+def ss_oracle(case, real):
+    """documented meaning for 0 <= N: the mean of the last N averaged states
+    (all of them for N = 0 or N > len(times))."""
+    N = int(case["N"])
+    if not case["stored"] or N < 0:
+        return []
+    n = case["n"]
+    avg = [sum(case["states"][i][k] for i in range(case["ntraj"])) / case["ntraj"] for k in range(n)]
+    m = n if (N == 0 or N > n) else N
+    want = sum(avg[n - m:]) * (1 / m)
+    if not (isinstance(real, tuple) and real[1] == complex(want)):
+        return [("steady_state", "steady_state(N) is not the mean of the last N averaged states")]
+    return []
+
+
+def run_traj_and_ss(ctx, rng):
+    n_tr = 200 if ctx.quick else 2500
+    n_ss = 120 if ctx.quick else 1500
+    cases = [gen_traj_case(rng) for _ in range(n_tr)] + [gen_ss_case(rng) for _ in range(n_ss)]
+    reals = []
+    dist = {"traj": 0, "ss": 0, "traj_outcome": {}, "nm": 0, "dark": 0}
+    for c in cases:
+        if c["kind"] == "traj":
+            real = run_traj_real(c)
+            for sig, msg in traj_oracle(c, real):
+                ctx.violation("mcsolve._run_one_traj:" + sig, sig, msg, {"case": c})
+            dist["traj"] += 1
+            dist["nm"] += 1 if c["nm"] else 0
+            dist["dark"] += 1 if c["dark"] else 0
+            k = real[0] if real[0] == "Ok" else real[1]
+            dist["traj_outcome"][k] = dist["traj_outcome"].get(k, 0) + 1
+            nontrivial = len(c["tlist"]) >= 2
+        else:
+            real = run_ss_real(c)
+            for sig, msg in ss_oracle(c, real):
+                ctx.violation("multitrajresult.MultiTrajResult.steady_state", sig, msg, {"case": c})
+            dist["ss"] += 1
+            nontrivial = c["n"] >= 2
+        reals.append(real)
+        ctx.count_case(json.dumps(c, sort_keys=True, default=str), nontrivial=nontrivial)
+    try:
+        vals = vlib.coq_eval_values(
+            "cases_C12_traj", HEADER,
+            [traj_expr(c) if c["kind"] == "traj" else ss_expr(c) for c in cases], chunk=200)
+    except RuntimeError as e:
+        ctx.violation("corr:C12:traj-model-eval", "coqc", "model evaluation failed",
+                      {"log": str(e)}, found_input=False)
+        return
+    import c12
+    mism = 0
+    for c, real, s in zip(cases, reals, vals):
+        ctx.cov["traces_validated_against_impl"] += 1
+        if c["kind"] == "traj":
+            model = c12.canon_model(s)
+            im = c12.canon_real(real) if real[0] == "Ok" else real
+            d = [] if model == im else ["trajectory"]
+        else:
+            d = compare_ss(c, real, vlib.parse_coq_value(s))
+        if d:
+            mism += 1
+            if mism <= 3:
+                ctx.violation("corr:_run_one_traj" if c["kind"] == "traj" else "corr:steady_state",
+                              d[0], "model and implementation disagree on %s" % d,
+                              {"case": c, "model": s, "impl": repr(real)[:1500]})
+    ctx.cov.setdefault("input_distribution", {})["traj_and_steady_state"] = dist
+    ctx.log("K7/K8: %d _run_one_traj + %d steady_state cases, %d mismatches"
+            % (dist["traj"], dist["ss"], mism))
+
+
 # ====================================================================== run
 def run(ctx, rng):
     n_mc = 250 if ctx.quick else 3000
@@ -460,6 +732,7 @@ def run(ctx, rng):
             "%d mismatches; %d attr cells, %d mismatches" % (dist["mc"], dist["sto"], mism,
                                                               len(cells) * 3, amis))
     ctx.sample({"aux_case": cases[0]})
+    run_traj_and_ss(ctx, rng)
 
 
 def replay(ctx, payload):
